@@ -39,7 +39,7 @@ func child(i, n int) {
 	var ops int64
 	var mism []string
 	var mu sync.Mutex
-	scs := append(append(append(scen.Pairs(), scen.Triples()...), scen.QueryTriples()...), append(scen.Bulk(), scen.Tiny()...)...)
+	scs := append(append(append(scen.Pairs(), scen.Triples()...), scen.QueryTriples()...), append(append(scen.Bulk(), scen.Tiny()...), scen.Twins()...)...)
 	// free-running build: the driver's pause between an export and draining its reader lets other
 	// goroutines run; unsupported metric names are new to the process in every call
 	scen.Pause = runtime.Gosched
